@@ -121,10 +121,29 @@ Conventions == {
   [f |-> "sinc",     kw |-> "none",            x |-> Q(0, 1),  dx |-> "zero"]
 }
 
+\* ---------------------------------------------------------------- focal loss  L(p) = -alpha (1 - p)^gamma ln p
+\* per datum, p = the probability (or softmax score) of the datum's own class.  value, dL/dp over X = p; for
+\* softmax_focal_loss the chain through softmax is stated too: dL/ds_target = L'(p) p (1 - p), dL/ds_other = -L'(p) p Y
+\* (Y = the other class's probability).  gamma = 0 is spelled without the (1-p)^-1 factor (it multiplies zero).
+OneMinusX == <<"sub", C(1), X>>
+FocalVal(a, g) == <<"neg", <<"mul", a, <<"mul", <<"pow", OneMinusX, g>>, <<"log", X>>>>>>>>
+FocalD(a, g) ==
+  LET t1 == <<"div", <<"pow", OneMinusX, g>>, X>>
+      t2 == <<"mul", g, <<"mul", <<"pow", OneMinusX, <<"sub", g, C(1)>>>>, <<"log", X>>>>>>
+  IN IF g = C(0) THEN <<"neg", <<"div", a, X>>>> ELSE <<"neg", <<"mul", a, <<"sub", t1, t2>>>>>>
+FocalAlphas == {C(1), Q(1, 2), C(3)}
+FocalGammas == {C(0), C(1), C(2), Q(1, 2), Q(3, 2), C(3)}
+FocalRows == {[kind |-> "focal", f |-> "focal_loss", alpha |-> a, gamma |-> g, val |-> FocalVal(a, g), d |-> FocalD(a, g),
+               dtarget |-> <<"mul", FocalD(a, g), <<"mul", X, OneMinusX>>>>,
+               dother |-> <<"neg", <<"mul", FocalD(a, g), <<"mul", X, Y>>>>>>,
+               dom |-> <<<<1, 9>>>>,                 \* p in [0.1, 0.9] plus the approach to both ends
+               at_one |-> IF g = C(0) THEN <<"neg", a>> ELSE C(0)]         \* dL/dp at p = 1 (the documented limit)
+              : a \in FocalAlphas, g \in FocalGammas}
+
 UnaryRows == {[kind |-> "unary", f |-> f, d |-> Unary[f], dom |-> SetToSeq(Dom[f])] : f \in DOMAIN Unary}
 BinaryRows == {[kind |-> "binary", f |-> f, d |-> Binary[f], pos |-> f \in BinPosOnly] : f \in DOMAIN Binary}
 ConvRows == {[kind |-> "convention", f |-> c.f, kw |-> c.kw, x |-> c.x, dx |-> c.dx] : c \in Conventions}
-Rows == UnaryRows \cup BinaryRows \cup ConvRows
+Rows == UnaryRows \cup BinaryRows \cup ConvRows \cup FocalRows
 
 \* ---------------------------------------------------------------- what TLC decides about the table
 EveryUnaryHasDomain == DOMAIN Unary = DOMAIN Dom
